@@ -104,6 +104,14 @@ func (r *Response) EntityWriter() (EntityReaderWriter, bool) {
 			}
 		}
 	}
+	// a Route that declares what it produces never writes anything else :
+	// fallback to whatever the route says it can produce.
+	// https://www.w3.org/Protocols/rfc2616/rfc2616-sec14.html
+	for _, each := range r.routeProduces {
+		if w, ok := entityAccessRegistry.accessorAt(each); ok {
+			return w, true
+		}
+	}
 	// if requestAccept is empty
 	writer, ok := entityAccessRegistry.accessorAt(r.requestAccept)
 	if !ok {
@@ -116,13 +124,6 @@ func (r *Response) EntityWriter() (EntityReaderWriter, bool) {
 		}
 		if DefaultResponseMimeType == MIME_ZIP {
 			return entityAccessRegistry.accessorAt(MIME_ZIP)
-		}
-		// Fallback to whatever the route says it can produce.
-		// https://www.w3.org/Protocols/rfc2616/rfc2616-sec14.html
-		for _, each := range r.routeProduces {
-			if w, ok := entityAccessRegistry.accessorAt(each); ok {
-				return w, true
-			}
 		}
 		if trace {
 			traceLogger.Printf("no registered EntityReaderWriter found for %s", r.requestAccept)
